@@ -1,2 +1,14 @@
-// Package web — see /verif/DESIGN.md.
+// Package web is the runtime-monitoring check of C16 (see /verif/DESIGN.md §3 "C16 — web
+// middleware"): the five web integrations of godi (net/http, chi, gin, echo, fiber) are driven
+// through ScopeMiddleware + Handle with a spy provider; per request the monitors compare what
+// CreateScope returned with what the configured middlewares, the route handler and the
+// controller saw, and with what was closed after the request, on every exit path.
+//
+//	c16.go        registration, fixed case list per (tier, seed), case execution, counters
+//	core.go       case/plan vocabulary and the framework-independent callback bodies
+//	state.go      per-case / per-request observation state, instance registry, spy provider
+//	services.go   the services registered with real godi (top-level constructors)
+//	check.go      the monitors (one clause each) over the observations of one request
+//	transport.go  httptest recorder / real httptest.Server / fiber app.Test drivers
+//	fw_*.go       thin adapters: routes, option sets and handlers per framework
 package web
